@@ -1,7 +1,7 @@
 (** Extraction of the executable models.  ExtrOcamlBasic only; no Extract Constant:
     the scalar operations are passed in as an [ops] record by the driver. *)
 From Coq Require Import List Arith Bool.
-From SV Require Import Base.Ops Base.Arr Model.Vec3 Model.Exchange Model.Scene.
+From SV Require Import Base.Ops Base.Arr Model.Vec3 Model.Exchange Model.Scene Model.Stokes.
 Require Extraction.
 From Coq Require Import ExtrOcamlBasic.
 Extraction Language OCaml.
@@ -9,4 +9,6 @@ Extraction "model.ml"
   tab argmin nearest centroid fan_area vnorm vdist
   shift_trunc roll init_hist step exchange order_k directed delay_floor delay_ceil
   tilde p2o vis_pairs delay_matrix n_samples e0dir delay0 energy0 src_dist patch_hist
-  patchwise mono_of mono direct_val direct_bin.
+  patchwise mono_of mono direct_val direct_bin
+  sample_pts sample_conn load_stokes_entries newton_cotes_4th stokes_integration stokes_nocut
+  coincidence_check universal_branch patch2patch_ff ff_full.
